@@ -231,6 +231,11 @@ package native
 //@ assumed
 //@ requires n != nil && ic != nil && acc != nil
 //@ modifies acc.BalanceHeight, acc.LastGasPerVote
+//@ package github.com/nspcc-dev/neo-go/pkg/core/dao
+//@ func (*Simple).GetItemCtx
+//@ assumed
+//@ pure
+//@ package github.com/nspcc-dev/neo-go/pkg/core/native
 //@ func (*NEO).increaseBalance
 //@ may-panic
 //@ opt frame off
@@ -240,6 +245,12 @@ package native
 //@ call modifyVoterTurnout requires[covered] amount.v < 0 && (&acc.Balance).v >= 0 ==> (&acc.Balance).v + amount.v >= 0
 //@ call modifyVoterTurnout requires[amount] arg2 == amount && amount.v == old(amount.v)
 //@ call modifyVoterTurnout requires[voting] acc.VoteTo != nil
+// The stored record moves by the amount; an account whose balance reaches zero is deleted (its
+// record would otherwise keep spelling the old balance).
+//@ spec neoBalOf(si state.StorageItem) int = ite(len(si) == 0, 0, state.neoBal(si))
+//@ ensures[delta] result1 == nil && old(amount.v) != 0 ==> neoBalOf(*si) == old(neoBalOf(*si)) + old(amount.v)
+//@ ensures[gone] result1 == nil && old(amount.v) != 0 && old(neoBalOf(*si)) + old(amount.v) == 0 ==> *si == nil
+//@ ensures[err] result1 != nil && ncalls(ModifyAccountVotes) == 0 ==> same(*si, old(*si))
 
 // Notary.OnPersist (C05: GAS owned by the Notary contract == sum of the deposits): the fees of a
 // notary-assisted transaction sent by the Notary contract are taken from the deposit of its second
